@@ -31,7 +31,7 @@ ASSUMPTIONS = ["content argument = Rust str::trim of the exact content (Unicode 
 
 HOSTS = [("py", "#"), ("go", "//"), ("toml", "#"), ("md", "<!--"), ("md", "<!--")]
 UNSAFE_IN_CODE = set("'\"(){}[]<>\\`\u00a0\u2003\u3000\u2028\u0085\x0b")
-FAILS = ["syntax", "runtime", "load", "lateload", "missing", "number", "boolean", "table", "false", "nilindex", "func"]
+FAILS = ["syntax", "runtime", "load", "lateload", "missing", "number", "boolean", "table", "false", "nilindex", "func", "cstack"]
 PIECES = ["alpha", "beta gamma", "  lead", "trail  ", "é ü", "日本語", "\U0001F600", "it's", 'say "hi"', "a=b", "<tag>", "x > y", "1 + 2",
           "id: 42", "id: seven", "\u00a0nbsp\u00a0", "\u2003emsp", "\u3000ideographic", "trail\u3000", "\u2028ls", "nel\u0085", "\x0bvt", "tab\there", "100%", "{json: [1,2]}", "(paren)", "semi;colon", "start", "end",
           "zzz", "-- dash", "$var", "@at", "~tilde", "^caret", "|pipe|", "comma, separated", "q?", "e!"]
@@ -122,6 +122,8 @@ def gen_case(r, script, fail_scripts, logdir, ai=False, twin=None):
             extra = []
             for _ in range(r.randint(0, 3)):
                 k = r.choice(["data-x", "owner", "note_1", "ключ", "flag", "x"])
+                if r.random() < 0.08:
+                    extra.append(("dive", r.choice(["60", "120", "150"])))      # the script recurses that deep through C callbacks first
                 v = r.choice([None, "", "plain", "two words", "é", "a>b", "it's", 'q"q', "=", "1"])
                 extra.append((k, v))
             if b.failing:
